@@ -34,14 +34,15 @@ pub fn c03(tier: Tier, seed: u64) -> i32 {
     let acc = run_histories(
         seed,
         per_shard,
-        move |_r| HistCfg { ops: 120, spl_only: false, allow_transfer_fee: true, allow_adaptive: true, w_swap: 60, w_liq: 25, w_fees: 5, w_lifecycle: 4, w_clock: 3, w_setters: 3, ..Default::default() },
-        || vec![Box::new(C03::default()) as Box<dyn Monitor>],
+        move |_r| HistCfg { ops: 120, pools: 3, spl_only: false, allow_transfer_fee: true, allow_adaptive: true, w_swap: 45, w_two_hop: 18, w_liq: 25, w_fees: 5, w_lifecycle: 4, w_clock: 3, w_setters: 3, ..Default::default() },
+        || vec![Box::new(C03::default()) as Box<dyn Monitor>, Box::new(crate::monitors::twohop::C03TwoHop) as Box<dyn Monitor>],
     );
     rep.acc = acc;
     rep.floor("swaps_checked", 3000);
     rep.floor("partial_fills", 300);
     rep.floor("threshold_triples", 500);
     rep.floor("ended_at_explicit_limit", 300);
+    rep.floor("two_hop_swaps_checked", 300);
     rep.finish()
 }
 
@@ -79,5 +80,48 @@ pub fn c07(tier: Tier, seed: u64) -> i32 {
     rep.floor("position_settlements", 3000);
     rep.floor("position_settlements_with_earned_fees", 500);
     rep.floor("accrual_steps", 5000);
+    rep.finish()
+}
+
+pub fn c12(tier: Tier, seed: u64) -> i32 {
+    use crate::monitors::c12::C12;
+    let mut rep = Report::new("C12", tier, seed);
+    rep.rule = "function level: on byte snapshots of (whirlpool, position, lower array, upper array) taken from running histories (reachable bytes, both array encodings, same-array and two-array positions), with liquidity deltas {0, +-1, +-L, -(L+1), i128::MIN/MAX, overflowing, random} and timestamps {equal, earlier, later, u64::MAX}: Anchor (deserialize -> calculate_modify_liquidity -> sync -> token deltas -> serialize) vs Pinocchio (memory-mapped views over copies): same Ok/Err and error number, every field of the update structs, token amounts, and the resulting bytes of all four accounts. instruction level: every increase/decrease(_v2) of the history is also executed on a clone of the pre-state through whirlpool::entry (Anchor dispatch): same success/failure, identical resulting bank, identical event bytes; the six Pinocchio discriminators never reach the Anchor dispatcher through entrypoint. distinct = (level, instruction or delta sign, encoding, outcome)".into();
+    rep.assumptions = vec![SVM_ASSUMPTION.into(), "the two Pinocchio-only instructions (by-token-amounts, reposition) have unreachable!() Anchor bodies: they are judged by C05/C07/C08/C16/C18 monitors, not by a route differential".into()];
+    let per_shard = tier.pick(14, 1400);
+    let acc = run_histories(
+        seed,
+        per_shard,
+        move |_r| HistCfg { ops: 120, spl_only: false, allow_transfer_fee: true, seed_growth: true, w_swap: 30, w_liq: 50, w_fees: 8, w_lifecycle: 6, w_clock: 4, w_setters: 2, ..Default::default() },
+        || vec![Box::new(C12::default()) as Box<dyn Monitor>],
+    );
+    rep.acc = acc;
+    rep.floor("fn_diff_both_ok", 10_000);
+    rep.floor("fn_diff_both_err", 2_000);
+    rep.floor("route_pairs_both_ok", 2_000);
+    rep.floor("route_pairs_both_err", 200);
+    rep.floor("routing_observed", 3_000);
+    rep.floor("range_diff_ok", 1_000);
+    rep.floor("range_diff_err", 1_000);
+    rep.finish()
+}
+
+pub fn c17(tier: Tier, seed: u64) -> i32 {
+    use crate::monitors::twohop::C17;
+    let mut rep = Report::new("C17", tier, seed);
+    rep.rule = "every two-hop swap of the history workload (v1 and v2, all four direction combinations, both modes, with/without limits, SPL and Token-2022 incl. transfer-fee mints, static and adaptive pools; 1 in 12 deliberately names the same pool twice or legs that do not chain): a successful two-hop is replayed on a clone of the pre-state as two single swaps whose second amount is the intermediate amount measured at the vaults; both legs must succeed and both pools, all named tick arrays, oracles and vaults must be byte-identical, trader input/output deltas identical, trader intermediate balance untouched; same pool twice / non-chaining mints must never succeed; outer threshold probes x-1/x/x+1 on clones. distinct = (instruction, mode, direction pair, limits)".into();
+    rep.assumptions = vec![SVM_ASSUMPTION.into(), "'fails if either leg would fail on its own' is checked in its contrapositive form (success => both single legs succeed)".into()];
+    let per_shard = tier.pick(16, 1600);
+    let acc = run_histories(
+        seed,
+        per_shard,
+        move |_r| HistCfg { ops: 110, pools: 3, spl_only: false, allow_transfer_fee: true, allow_adaptive: true, w_swap: 20, w_two_hop: 45, w_liq: 25, w_fees: 3, w_lifecycle: 2, w_clock: 3, w_setters: 2, ..Default::default() },
+        || vec![Box::new(C17) as Box<dyn Monitor>],
+    );
+    rep.acc = acc;
+    rep.floor("two_hops_ok", 1000);
+    rep.floor("two_hops_replayed_as_singles", 1000);
+    rep.floor("two_hops_failed", 300);
+    rep.floor("threshold_triples", 300);
     rep.finish()
 }
